@@ -14,6 +14,10 @@ PROP = {  # commit subject keyword -> property
     "double parameters were serialised": "C13",
     "bytecode encoder aborted": "C13",
     "push/pop of r8-r15": "C10",
+    "parser": "C14", "orc_parse_code": "C14", "_strtoll": "C14", "operand that starts like a number": "C14",
+    "directive or an opcode before": "C14", "more than 16 tokens": "C14",
+    "appending more than ORC_N_INSNS": "C05", "tables overflowed": "C05", "without any array variable": "C05",
+    "temporary register after the last instruction": "C05", "running out of general registers": "C05",
     "three-byte VEX prefix set pp=66": "C12",
     "VEX encoding of the float compare": "C12",
 }
